@@ -2,6 +2,7 @@
   C01 — No FIL is created, lost or stranded: conservation (VM level) and solvency.
 -/
 import BA.Model.VM
+import BA.Model.Reward
 import BA.Props.C03
 import BA.Props.C16
 
@@ -137,33 +138,97 @@ end BA.VM
 
 namespace BA.Reward
 
-/-- `award_block_reward` (actors/reward/src/lib.rs): what is paid out of the reward actor's balance
-    for a block: gas reward + block reward, capped at the balance. -/
-def award (balance gasReward thisEpochReward winCount : Int) : Except BA.Err Int :=
-  if gasReward < 0 then .error .illegalArgument
-  else if balance < gasReward then .error .illegalState
-  else if winCount ≤ 0 then .error .illegalArgument
-  else
-    let blockReward := (thisEpochReward * winCount) / 5
-    let total := gasReward + blockReward
-    .ok (if total > balance then balance else total)
-
-/-- **The reward actor never pays out more than it holds** (and never a negative amount when the
-    epoch reward is non-negative). -/
-theorem reward_pays_le_balance (balance gas r w payout : Int) (hr : 0 ≤ r)
-    (h : award balance gas r w = .ok payout) : payout ≤ balance ∧ 0 ≤ payout := by
+/-- **The reward actor never pays out more than it holds**: a successful award sends a non-negative
+    amount that its balance covers (whatever the environment does), and records as block reward
+    exactly the part of it that is not the gas reward. -/
+theorem reward_pays_le_balance {sys : Bool} {balance pen gas r w : Int} {res mok bok : Bool} {o : Out}
+    (hr : 0 ≤ r) (h : award sys balance pen gas r w res mok bok = .ok o) :
+    0 ≤ o.total ∧ o.total ≤ balance ∧ 0 ≤ o.paidOut ∧ o.paidOut ≤ balance ∧
+    o.total = gas + o.blockReward ∧ 0 ≤ o.blockReward := by
   unfold award at h
   simp only [BA.guard_ok] at h
-  obtain ⟨h1, h2, h3, h⟩ := h
+  obtain ⟨_, _, h1, h2, h3, _, h4, h5, h⟩ := h
   injection h with h
-  have hb : 0 ≤ r * w / 5 := by
+  have hb : 0 ≤ r * w / BA.Gen.expectedLeadersPerEpoch := by
     apply Int.ediv_nonneg
     · apply Int.mul_nonneg hr; omega
-    · omega
+    · decide
   subst h
-  by_cases hc : gas + r * w / 5 > balance
-  · rw [if_pos hc]; omega
-  · rw [if_neg hc]; omega
+  simp only [Out.paidOut]
+  by_cases hc : gas + r * w / BA.Gen.expectedLeadersPerEpoch > balance
+  · simp only [hc, if_true] at h4 h5 ⊢
+    refine ⟨by omega, by omega, ?_, ?_, by omega, by omega⟩ <;> (cases mok <;> cases bok <;> simp <;> omega)
+  · simp only [hc, if_false] at h4 h5 ⊢
+    refine ⟨by omega, by omega, ?_, ?_, trivial, by omega⟩ <;> (cases mok <;> cases bok <;> simp <;> omega)
+
+/-- a failed award is one of the listed rejections and pays nothing (the VM rolls it back) -/
+theorem reward_rejections (sys : Bool) (balance pen gas r w : Int) (res mok bok : Bool) (hr : 0 ≤ r) :
+    (∃ o, award sys balance pen gas r w res mok bok = .ok o) ↔
+      (sys = true ∧ 0 ≤ pen ∧ 0 ≤ gas ∧ gas ≤ balance ∧ 0 < w ∧ res = true) := by
+  have hb : 0 ≤ w → 0 ≤ r * w / BA.Gen.expectedLeadersPerEpoch := fun hw => by
+    apply Int.ediv_nonneg
+    · exact Int.mul_nonneg hr hw
+    · decide
+  constructor
+  · rintro ⟨o, h⟩
+    unfold award at h
+    simp only [BA.guard_ok] at h
+    obtain ⟨a, b, c, d, e, f, _⟩ := h
+    refine ⟨by simpa using a, by omega, by omega, by omega, by omega, by simpa using f⟩
+  · rintro ⟨a, b, c, d, e, f⟩
+    subst a; subst f
+    have hb := hb (by omega)
+    unfold award
+    simp only [Bool.not_true, Bool.false_eq_true, if_false]
+    rw [if_neg (by omega), if_neg (by omega), if_neg (by omega), if_neg (by omega)]
+    by_cases hc : gas + r * w / BA.Gen.expectedLeadersPerEpoch > balance
+    · simp only [hc, if_true, true_and]
+      rw [if_neg (by omega), if_neg (by omega)]
+      exact ⟨_, rfl⟩
+    · simp only [hc, if_false, false_and]
+      exact ⟨_, rfl⟩
+
+/-- one block award in a history: FIL arriving at the reward actor before it (gas fees), then the
+    message -/
+structure Award where
+  income : Int
+  sys : Bool
+  pen : Int
+  gas : Int
+  reward : Int
+  wins : Int
+  resolves : Bool
+  minerOk : Bool
+  burnOk : Bool
+
+/-- the reward actor's balance along a history of awards -/
+def runAwards : Int → List Award → Int
+  | b, [] => b
+  | b, a :: rest =>
+    let b1 := b + a.income
+    match award a.sys b1 a.pen a.gas a.reward a.wins a.resolves a.minerOk a.burnOk with
+    | .ok o => runAwards (b1 - o.paidOut) rest
+    | .error _ => runAwards b1 rest
+
+/-- **Every history**: whatever is asked of it, the reward actor's balance never goes negative. -/
+theorem reward_balance_nonneg (as : List Award) : ∀ b, 0 ≤ b →
+    (∀ a ∈ as, 0 ≤ a.income ∧ 0 ≤ a.reward) → 0 ≤ runAwards b as := by
+  induction as with
+  | nil => intro b hb _; exact hb
+  | cons a rest ih =>
+    intro b hb hall
+    have ha := hall a (by simp)
+    have hrest : ∀ x ∈ rest, 0 ≤ x.income ∧ 0 ≤ x.reward := fun x hx => hall x (by simp [hx])
+    simp only [runAwards]
+    cases h : award a.sys (b + a.income) a.pen a.gas a.reward a.wins a.resolves a.minerOk a.burnOk with
+    | error e => exact ih _ (by omega) hrest
+    | ok o =>
+      have := reward_pays_le_balance ha.2 h
+      exact ih _ (by omega) hrest
+
+/-- non-vacuity: the cap is reached (balance 7 < 3 + 10), the miner refuses, the funds are burnt -/
+example : award true 7 1 3 50 1 true false true =
+    .ok { total := 7, blockReward := 4, penalty := 3, dest := .burnt } := by rfl
 
 end BA.Reward
 
